@@ -915,33 +915,70 @@ fn read_decode_body(with_tape: bool) {
     let (mut c, latch, t) = any_controller_at(kemp, mouse);
     let m = c.machine;
     let cfg = any_devices(&mut c);
-    // display witness (stored at concrete indices; bank 5 / 48K RAM at 0x4000)
+    // display witness: one byte at a literal offset of a literal RAM bank - the normal screen (bank 5 /
+    // 48K screen RAM), the shadow screen (bank 7) or a bank that is never display memory (bank 3 / 48K
+    // RAM at 0x8000) - so that "a byte of the display memory being fetched" can be told from any other RAM
     let v: u8 = kani::any();
     kani::assume(v != 0 && v != 0xFF);
     let wsel: u8 = kani::any();
     kani::assume(wsel < 5);
-    // (is_attr, line or attr row, column)
-    let (w_attr, w_line, w_col): (bool, usize, usize) = match wsel {
-        0 => {
-            c.memory.write(0x4000, v);
-            (false, 0, 0)
-        }
-        1 => {
-            // line 100 = 0b01100100 -> 0x4000 | 0x0800 | 0x0400 | 0x0080, column 17
-            c.memory.write(0x4C80 + 17, v);
-            (false, 100, 17)
-        }
-        2 => {
-            c.memory.write(0x57FF, v);
-            (false, 191, 31)
-        }
-        3 => {
-            c.memory.write(0x5800 + 12 * 32 + 17, v);
-            (true, 12, 17)
-        }
-        _ => {
-            c.memory.write(0x5AFF, v);
-            (true, 23, 31)
+    // (is_attr, line or attr row, column, offset in the bank)
+    let (w_attr, w_line, w_col, w_off): (bool, usize, usize, usize) = match wsel {
+        0 => (false, 0, 0, 0x0000),
+        1 => (false, 100, 17, 0x0C80 + 17), // line 100 = 0b01100100 -> 0x0800 | 0x0400 | 0x0080
+        2 => (false, 191, 31, 0x17FF),
+        3 => (true, 12, 17, 0x1800 + 12 * 32 + 17),
+        _ => (true, 23, 31, 0x1AFF),
+    };
+    let wbank_sel: u8 = kani::any();
+    kani::assume(wbank_sel < 3);
+    // Spectrum RAM bank holding the witness
+    let w_bank: u8 = match (m, wbank_sel) {
+        (ZXMachine::Sinclair48K, 0) => 0,
+        (ZXMachine::Sinclair48K, _) => 1,
+        (_, 0) => 5,
+        (_, 1) => 7,
+        (_, _) => 3,
+    };
+    // every store below has a literal bank and offset (a symbolic bank makes the RAM store symbolic)
+    match (w_bank, wsel) {
+        (0, 0) => c.memory.ram_page_data_mut(0)[0x0000] = v,
+        (0, 1) => c.memory.ram_page_data_mut(0)[0x0C80 + 17] = v,
+        (0, 2) => c.memory.ram_page_data_mut(0)[0x17FF] = v,
+        (0, 3) => c.memory.ram_page_data_mut(0)[0x1800 + 12 * 32 + 17] = v,
+        (0, 4) => c.memory.ram_page_data_mut(0)[0x1AFF] = v,
+        (1, 0) => c.memory.ram_page_data_mut(1)[0x0000] = v,
+        (1, 1) => c.memory.ram_page_data_mut(1)[0x0C80 + 17] = v,
+        (1, 2) => c.memory.ram_page_data_mut(1)[0x17FF] = v,
+        (1, 3) => c.memory.ram_page_data_mut(1)[0x1800 + 12 * 32 + 17] = v,
+        (1, 4) => c.memory.ram_page_data_mut(1)[0x1AFF] = v,
+        (3, 0) => c.memory.ram_page_data_mut(3)[0x0000] = v,
+        (3, 1) => c.memory.ram_page_data_mut(3)[0x0C80 + 17] = v,
+        (3, 2) => c.memory.ram_page_data_mut(3)[0x17FF] = v,
+        (3, 3) => c.memory.ram_page_data_mut(3)[0x1800 + 12 * 32 + 17] = v,
+        (3, 4) => c.memory.ram_page_data_mut(3)[0x1AFF] = v,
+        (5, 0) => c.memory.ram_page_data_mut(5)[0x0000] = v,
+        (5, 1) => c.memory.ram_page_data_mut(5)[0x0C80 + 17] = v,
+        (5, 2) => c.memory.ram_page_data_mut(5)[0x17FF] = v,
+        (5, 3) => c.memory.ram_page_data_mut(5)[0x1800 + 12 * 32 + 17] = v,
+        (5, 4) => c.memory.ram_page_data_mut(5)[0x1AFF] = v,
+        (7, 0) => c.memory.ram_page_data_mut(7)[0x0000] = v,
+        (7, 1) => c.memory.ram_page_data_mut(7)[0x0C80 + 17] = v,
+        (7, 2) => c.memory.ram_page_data_mut(7)[0x17FF] = v,
+        (7, 3) => c.memory.ram_page_data_mut(7)[0x1800 + 12 * 32 + 17] = v,
+        (7, 4) => c.memory.ram_page_data_mut(7)[0x1AFF] = v,
+        _ => {}
+    }
+    let _ = w_off;
+    // the bank the ULA fetches the picture from (C08 statement): bank 5, or 7 while latch bit 3 is set
+    let shown_bank: u8 = match m {
+        ZXMachine::Sinclair48K => 0,
+        ZXMachine::Sinclair128K => {
+            if latch.val & 0x08 != 0 {
+                7
+            } else {
+                5
+            }
         }
     };
     // tape deck: empty, or a loaded (stopped) tape with an arbitrary EAR level
@@ -999,6 +1036,8 @@ fn read_decode_body(with_tape: bool) {
         }
         kani::assert(got == 0xFF || got == 0 || got == v, "c07.float.only_ff_or_display_bytes");
         if got == v {
+            // only memory the ULA is displaying can appear on the bus
+            kani::assert(w_bank == shown_bank, "c07.float.byte_comes_from_the_displayed_screen_bank");
             // the witness must belong to a cell fetched between t-4 and te+4
             let wl_lo = if w_attr { w_line * 8 } else { w_line };
             let wl_hi = if w_attr { w_line * 8 + 7 } else { w_line };
@@ -1008,6 +1047,7 @@ fn read_decode_body(with_tape: bool) {
             kani::assert((in_lo || in_hi) && after_lo && before_hi, "c07.float.byte_is_the_one_being_fetched");
         }
         kani::cover!(got == v && w_attr, "attribute byte seen on the floating bus");
+        kani::cover!(got == v && w_bank == 7, "shadow-screen byte seen on the floating bus");
         kani::cover!(got == v && !w_attr && wsel == 1, "bitmap byte seen on the floating bus");
         kani::cover!(same_gap && t > 20000, "idle bus inside the picture area (right border / retrace)");
     }
@@ -1024,8 +1064,8 @@ fn read_decode_body(with_tape: bool) {
 // @tier quick
 // @timeout 1200
 // @fn ZXController::read_io; ZXController::floating_bus_value; KempstonJoy::read; TapeImpl::current_bit; bitmap_line_addr; ZXMemory::read
-// @sym machine, latch, frame time, 16-bit port, device configuration as in c07_write_reaches_one_device, keyboard/extended/sinclair matrices (bits 5-7 set), one witness byte in display memory (bitmap or attribute, position from a class of 5)
-// @assert for every port selecting at most one device: extender ports return the extender's byte (read once); even ports return the AND of the half-rows selected by zero bits of A8-A15 over the three key sources, bit 6 = EAR, bits 5,7 = 1; Kempston port returns the joystick byte; mouse ports return buttons/X/Y; a port no device claims returns 0xFF when the whole cycle lies outside the picture fetch windows (+-4 T), otherwise 0xFF or a byte of display/attribute memory of the cells fetched during the cycle (+-4 T); reads change no device state
+// @sym machine, latch, frame time, 16-bit port, device configuration as in c07_write_reaches_one_device, keyboard/extended/sinclair matrices (bits 5-7 set), one witness byte (position from a class of 5 display cells) in the normal screen bank, the shadow screen bank or a non-display bank
+// @assert for every port selecting at most one device: extender ports return the extender's byte (read once); even ports return the AND of the half-rows selected by zero bits of A8-A15 over the three key sources, bit 6 = EAR, bits 5,7 = 1; Kempston port returns the joystick byte; mouse ports return buttons/X/Y; a port no device claims returns 0xFF when the whole cycle lies outside the picture fetch windows (+-4 T), otherwise 0xFF or a byte of display/attribute memory of the cells fetched during the cycle (+-4 T), taken from the bank the ULA is displaying (bank 7 while latch bit 3 is set) and from no other RAM; reads change no device state
 // @assume at most one device selected; AY ports are excluded in this build (no AY compiled in; see c07_ay_ports); (A8,A10)=(0,1) mouse-style addresses are excluded (statement names only the FADF/FBDF/FFDF forms); tape deck empty (EAR low)
 // @bound one port read per query
 // @stub ZXScreen::process_clocks -> no-op
@@ -1042,8 +1082,8 @@ fn c07_read_comes_from_one_device() {
 // @tier quick
 // @timeout 1200
 // @fn ZXController::read_io; ZXController::floating_bus_value; KempstonJoy::read; TapeImpl::current_bit; bitmap_line_addr; ZXMemory::read
-// @sym machine, latch, frame time, 16-bit port, device configuration as in c07_write_reaches_one_device, keyboard/extended/sinclair matrices (bits 5-7 set), one witness byte in display memory (bitmap or attribute, position from a class of 5)
-// @assert for every port selecting at most one device: extender ports return the extender's byte (read once); even ports return the AND of the half-rows selected by zero bits of A8-A15 over the three key sources, bit 6 = EAR, bits 5,7 = 1; Kempston port returns the joystick byte; mouse ports return buttons/X/Y; a port no device claims returns 0xFF when the whole cycle lies outside the picture fetch windows (+-4 T), otherwise 0xFF or a byte of display/attribute memory of the cells fetched during the cycle (+-4 T); reads change no device state
+// @sym machine, latch, frame time, 16-bit port, device configuration as in c07_write_reaches_one_device, keyboard/extended/sinclair matrices (bits 5-7 set), one witness byte (position from a class of 5 display cells) in the normal screen bank, the shadow screen bank or a non-display bank
+// @assert for every port selecting at most one device: extender ports return the extender's byte (read once); even ports return the AND of the half-rows selected by zero bits of A8-A15 over the three key sources, bit 6 = EAR, bits 5,7 = 1; Kempston port returns the joystick byte; mouse ports return buttons/X/Y; a port no device claims returns 0xFF when the whole cycle lies outside the picture fetch windows (+-4 T), otherwise 0xFF or a byte of display/attribute memory of the cells fetched during the cycle (+-4 T), taken from the bank the ULA is displaying (bank 7 while latch bit 3 is set) and from no other RAM; reads change no device state
 // @assume at most one device selected; AY ports are excluded in this build (no AY compiled in; see c07_ay_ports); (A8,A10)=(0,1) mouse-style addresses are excluded (statement names only the FADF/FBDF/FFDF forms); a tape is loaded (stopped) with an arbitrary EAR level
 // @bound one port read per query
 // @stub ZXScreen::process_clocks -> no-op
